@@ -7,6 +7,7 @@ import (
 	"fmt"
 	"runtime"
 	"strings"
+	"sync"
 
 	"github.com/RoaringBitmap/roaring/v2"
 	"verifmc/internal/model"
@@ -177,6 +178,49 @@ func AddChunk(b *roaring.Bitmap, m *model.Set32, key uint16, mask uint32, mode i
 	}
 }
 
+// BuildError records that the library could not read back its own serialization while a
+// zero-copy or frozen corpus entry was being built. The entry then falls back to the plain
+// bitmap, so that checks of properties that say nothing about serialization keep running
+// (and stay silent); the serialization checks (C05, C06, C13) report every recorded error.
+type BuildError struct {
+	Spec string
+	Step string
+	Err  string
+}
+
+var (
+	buildErrMu sync.Mutex
+	buildErrs  []BuildError
+	buildSeen  = map[string]bool{}
+)
+
+func noteBuildError(s Spec, step string, err error) {
+	buildErrMu.Lock()
+	defer buildErrMu.Unlock()
+	k := s.String() + "|" + step
+	if buildSeen[k] {
+		return
+	}
+	buildSeen[k] = true
+	buildErrs = append(buildErrs, BuildError{Spec: s.String(), Step: step, Err: err.Error()})
+}
+
+// BuildErrors returns the recorded errors whose step mentions one of the given words.
+func BuildErrors(words ...string) []BuildError {
+	buildErrMu.Lock()
+	defer buildErrMu.Unlock()
+	var out []BuildError
+	for _, e := range buildErrs {
+		for _, w := range words {
+			if strings.Contains(e.Step, w) {
+				out = append(out, e)
+				break
+			}
+		}
+	}
+	return out
+}
+
 // Build constructs the bitmap of the spec.
 func (s Spec) Build() *Built {
 	b := roaring.New()
@@ -195,23 +239,27 @@ func (s Spec) Build() *Built {
 	case ZeroC:
 		buf, err := b.ToBytes()
 		if err != nil {
-			panic("shapes: ToBytes: " + err.Error())
+			noteBuildError(s, "ToBytes", err)
+			break
 		}
 		buf = Aligned(buf)
 		nb := roaring.New()
 		if _, err := nb.FromUnsafeBytes(buf); err != nil {
-			panic("shapes: FromUnsafeBytes: " + err.Error())
+			noteBuildError(s, "FromUnsafeBytes(ToBytes())", err)
+			break
 		}
 		out.B, out.Bytes = nb, buf
 	case Frozen:
 		buf, err := b.Freeze()
 		if err != nil {
-			panic("shapes: Freeze: " + err.Error())
+			noteBuildError(s, "Freeze", err)
+			break
 		}
 		buf = Aligned(buf)
 		nb := roaring.New()
 		if err := nb.FrozenView(buf); err != nil {
-			panic("shapes: FrozenView: " + err.Error())
+			noteBuildError(s, "FrozenView(Freeze())", err)
+			break
 		}
 		out.B, out.Bytes = nb, buf
 		// A frozen view keeps its container headers in memory the collector does not
